@@ -40,6 +40,10 @@
    out (the mutators built on them are the operations above); get_components(False) never invalidates.  A write
    through such a reference at any LATER time is LiveWrite / LiveVarWrite (the description changes, the cache does
    not); Invalidate is invalidate_cache_for_component.  [ok_hist] is the discipline under which they are safe.
+   (a') Values handed to the mutators that ARE such live objects, or share sub-objects with them (argument
+   identity): the mutators copy the argument before they touch the description, so the call means the argument's
+   value at the time of the call ([live_value]); handing back the live definition to update_component leaves the
+   description alone and drops the labels of the component (Proofs.hand_back).
    (c) The other read-only calls (ReadOnly): get_component_configuration in its not fully resolved modes, instance,
    replicate, validate, copy, the blueprint / environment accessors ...  They build their answers by layering
    (FlowIR.override_object, in place) and resolving (FlowIR.fill_in, in place) COPIES of the blueprints, variables
@@ -443,18 +447,44 @@ Definition op_ok (o : op) : bool :=
   | _ => true
   end.
 
+(* [commits s n o]: the call o drops the labels of component (s, n) whenever that component exists:
+   invalidate_cache_for_component((s, n)) itself, or a component mutator of (s, n) - they all fetch the definition
+   with get_component((s, n), return_copy=False), which invalidates BEFORE the edit (also when the edit then raises);
+   update_component and delete_component invalidate after they replaced / removed the definition.
+   "Edit the live definition in place, then commit it": the commit is typically update_component((s, n), live) with
+   the edited live definition itself as the argument (ARGUMENT IDENTITY: the model takes the argument's VALUE at the
+   time of the call, see [hand_back] in Proofs.v). *)
+Definition commits (s : Z) (n : string) (o : op) : bool :=
+  match o with
+  | Invalidate s' n' | SetCompVar s' n' _ _ | DelCompVar s' n' _ | SetOption s' n' _ _ | DelOption s' n' _
+  | ReplaceComp s' n' _ | DelComp s' n' => (Z.eqb s s' && String.eqb n n') && op_ok o
+  | _ => false
+  end.
+
 (* the discipline under which live references to components are safe (the one conf.py follows when it expands the
    references of the components in place): a write through a live reference to (s, n) is followed, before anything
-   else happens, by invalidate_cache_for_component((s, n)) *)
+   else happens, by invalidate_cache_for_component((s, n)) - or (round 5) by any other call that [commits] (s, n) *)
 Fixpoint ok_hist (ops : list op) : bool :=
   match ops with
   | [] => true
   | LiveWrite s n r _ :: rest =>
       match rest with
-      | Invalidate s' n' :: rest' => route_ok r && Z.eqb s s' && String.eqb n n' && ok_hist rest'
-      | _ => false
+      | o2 :: rest' => route_ok r && commits s n o2 && ok_hist rest'
+      | [] => false
       end
   | o :: rest => op_ok o && ok_hist rest
+  end.
+
+(* ARGUMENT IDENTITY.  A mutator may be handed an object that IS part of the live description (what the caller
+   obtained from get_component(.., return_copy=False), get_components(return_copy=False),
+   get_platform_global_variables(.., return_copy=False)) or a new dictionary that shares sub-objects with it.  The
+   operations above take VALUES: the meaning of such a call is the call with the value the object has at the time of
+   the call - [live_value] for the sub-object at route r of component (s, n) ([] = the definition itself).  The
+   harness hands the real mutators the live objects themselves and tells the model these values. *)
+Definition live_value (d : doc) (s : Z) (n : string) (r : list string) : option jv :=
+  match find_comp d s n with
+  | Some c => get_path r c
+  | None => None
   end.
 
 (* ------------------------------------------------------------------ correspondence checker *)
